@@ -259,6 +259,41 @@ def isolation(F, rep):
                        ", ".join(sorted({last(callee(c)) for c in other}))), line_of(other[0]) if other else line_of(a2))
     if not n_ns:
         rep.anchor_missing("match on namespace_list(..) in Resolver::assignable")
+    # .. the same for a qualified *type* `ns.Type` (an annotation, the head of a blob literal): once the path in front is
+    # resolved to a namespace the type comes from that namespace's table - lookup() would start at the scope stack, where a
+    # parameter or local called `Type` sits
+    ta = F.fn(R + "ty_assignable")
+    rep.analysed(ta)
+    n_ty = 0
+    for mm in matches_on(fn_body(ta), "sylt_parser::TypeAssignableKind"):
+        for a2, alt2, vp2 in arm_alternatives(mm):
+            if not vp2 or last(vp2) != "Access":
+                continue
+            n_ty += 1
+            ns_h = set()
+            for st in nodes(a2["body"], "Let"):
+                if st.get("init") is not None and any(callee(c) == R + "namespace_type_list" for c in nodes(st["init"], "MethodCall")):
+                    ns_h |= {b["hid"] for b in pat_bindings(st["pat"])}
+            other = []
+            member = 0
+            for c in nodes(a2["body"], "MethodCall"):
+                cal = callee(c) or ""
+                if cal == R + "lookup":
+                    other.append(c)
+                elif cal == R + "lookup_global":
+                    if c["args"] and peel(c["args"][0]).get("hid") in ns_h:
+                        member += 1
+                    else:
+                        other.append(c)
+            rep.ob("ISOLATION", "ty_assignable|namespace-member-from-that-namespace-only", member > 0 and not other,
+                   "`ns.Type`: the type is looked up in the namespace `ns` only" if member > 0 and not other else
+                   "`ns.Type` with a namespace `ns`: the arm resolves the type through %s instead of the table of `ns` alone - a "
+                   "parameter, local or case binding called `Type` in the accessing function is taken for the module's type "
+                   "(`fn Circle: Square do shapes.Circle { side: 1 } end` builds a Square)" % (
+                       ", ".join(sorted({last(callee(c)) for c in other})) or "nothing it can be followed through"),
+                   line_of(other[0]) if other else line_of(a2))
+    if not n_ty:
+        rep.anchor_missing("Access arm of Resolver::ty_assignable")
     # lookup passes the identifier's own file
     lk = F.fn(R + "lookup")
     args = [pp(peel(c["args"][0])) for c in nodes(fn_body(lk), "MethodCall") if callee(c) == R + "lookup_global"]
